@@ -49,7 +49,7 @@ def bounds(tier):
         return {'omega': ['2 variables, 3 constraints, coefficients in [-2,2]: all 15625 row triples', '3 variables, 3 constraints, coefficients [-2,2]: 600 seeded row triples',
                           '2 variables, coefficients in {-3,-2,2,3} (no units): all 256 row pairs + 480 seeded triples'],
                 'simplex': ['2 variables, <=3 constraints (>= or <=), coefficients [-2,2], all row pairs + 1500 seeded triples'],
-                'proofs': 'OmegaHOL / simplex_macro / integer_simplex on 250 seeded concrete systems (2-3 variables, 2-4 constraints, constants [-3,3])',
+                'proofs': 'OmegaHOL / simplex_macro / integer_simplex on 250 seeded concrete systems (2-3 variables, 2-4 constraints, constants [-3,3]) + 576 systems bounding one linear form twice, in every order',
                 'constants': 'symbolic in [-%d,%d]' % (CRANGE, CRANGE)}
     return {'omega': ['2 variables, 3 constraints, coefficients [-3,3]', '3 variables, 3 constraints, coefficients [-1,1] exhaustive (19683) + [-2,2] 20000 seeded',
                       '2 variables, 4 constraints, coefficients [-2,2]: 40000 seeded', '4 variables, 4 constraints, coefficients [-2,2]: 4000 seeded',
@@ -102,6 +102,8 @@ def units(tier, seed):
             us.append(('simplex', 2, (-2, 2), 3, 'sample', (seed, i, 100)))
         for i in range(10):
             us.append(('proofs', seed, i, 25))
+        for i in range(0, len(repeated_form_systems()), 48):
+            us.append(('proofs', 'repeated', i, 48))
     else:
         r2 = rows(2, -3, 3)
         for first in range(len(r2)):
@@ -130,6 +132,8 @@ def units(tier, seed):
             us.append(('simplex', 3, (-2, 2), 4, 'sample', (seed, i, 100)))
         for i in range(80):
             us.append(('proofs', seed, i, 50))
+        for i in range(0, len(repeated_form_systems()), 48):
+            us.append(('proofs', 'repeated', i, 48))
     rnd.shuffle(us)
     return us
 
@@ -476,11 +480,30 @@ def concrete_checks(nv, rs):
     return bad
 
 
+def repeated_form_systems():
+    """Systems in which one linear form is bounded twice (below and above, or twice on one side) with another constraint
+    in between, in every order -- the wrappers keep one auxiliary variable per distinct left-hand side."""
+    out = []
+    for f, g in (([-1, 2], [-2, 2]), ([1, 1], [1, -1]), ([2, 0], [1, 1])):
+        for (b1, d1), (b3, d3) in itertools.product([(1, 0), (-2, 1), (3, 1), (0, 0)], repeat=2):
+            for b2, d2 in ((3, 1), (-1, 0)):
+                base = [(f, b1, d1), (g, b2, d2), (f, b3, d3)]
+                for perm in itertools.permutations(range(3)):
+                    out.append((2, [base[i] for i in perm]))
+    return out
+
+
 def run_proofs(u, out, twin):
     _, seed, i, n = u
     rnd = random.Random('proofs-%s-%s' % (seed, i))
+    rep = repeated_form_systems() if seed == 'repeated' else None
     for k in range(n):
-        nv, rs = gen_system(rnd)
+        if rep is not None:
+            if i + k >= len(rep):
+                break
+            nv, rs = rep[i + k]
+        else:
+            nv, rs = gen_system(rnd)
         out['evals'] += 1
         out['keys'].add('p|%s' % (rs,))
         if twin:
